@@ -18,10 +18,13 @@ const (
 	FailMissingFn
 	FailReadLocal // reads a local that only other rules assign (C15)
 	FailCustom    // Rule.Custom holds the faulty statements (C09 catalog)
+	FailIndexCond // index out of range inside an if condition: reaches the rule-level recover with a non-error panic value
+	FailNonBool   // non-boolean if condition: rule-level recover, error-typed panic value
+	FailPanicBig  // injected function panicking with a multi-megabyte message: slow error construction
 	nFailKinds
 )
 
-var failNames = []string{"none", "div0", "int+string", "missing-var", "cmp-type", "panic-fn", "missing-fn", "read-foreign-local", "custom"}
+var failNames = []string{"none", "div0", "int+string", "missing-var", "cmp-type", "panic-fn", "missing-fn", "read-foreign-local", "custom", "index-in-condition", "non-bool-condition", "panic-big-message"}
 
 const (
 	RetNone = iota
@@ -129,7 +132,10 @@ func Gen(r *rand.Rand, o GenOpts) *RuleSet {
 	rs := &RuleSet{}
 	kinds := o.FailKinds
 	if kinds == nil {
-		kinds = []int{FailDivZero, FailAddString, FailMissingVar, FailCmpType, FailPanicFn, FailMissingFn}
+		kinds = []int{FailDivZero, FailAddString, FailMissingVar, FailCmpType, FailPanicFn, FailMissingFn, FailIndexCond, FailNonBool, FailDivZero, FailPanicFn}
+		if r.Intn(8) == 0 {
+			kinds = append(kinds, FailPanicBig, FailPanicBig, FailPanicBig)
+		}
 		if o.NoPanicFault {
 			kinds = []int{FailDivZero, FailAddString, FailMissingVar, FailCmpType, FailMissingFn}
 		}
@@ -286,6 +292,12 @@ func failStmt(kind, id int) string {
 		return fmt.Sprintf("nosuchfn(fl(%d))", id)
 	case FailReadLocal:
 		return fmt.Sprintf("fl(%d) zz = xloc + yloc", id)
+	case FailIndexCond:
+		return fmt.Sprintf("ixx = fl(%d) + 9 if three[ixx] > 0 { zz = 1 }", id)
+	case FailNonBool:
+		return fmt.Sprintf("if fl(%d) { zz = 1 }", id)
+	case FailPanicBig:
+		return fmt.Sprintf("pnb(%d)", id)
 	}
 	return ""
 }
